@@ -29,11 +29,11 @@ class Kill(BaseException):
 
 
 class MT:
-    __slots__ = ("name", "sem", "blocked", "timeout", "done", "timed_out", "real", "key", "obj", "error", "started")
+    __slots__ = ("name", "sem", "blocked", "timeout", "done", "timed_out", "real", "key", "obj", "error", "started", "origin")
     def __init__(self, name):
         self.name = name; self.sem = _rt.Semaphore(0); self.blocked = None; self.timeout = False
         self.done = False; self.timed_out = False; self.real = None; self.key = ("boot",); self.obj = None
-        self.error = None; self.started = False
+        self.error = None; self.started = False; self.origin = None
 
 
 class Controller:
@@ -74,6 +74,9 @@ class Controller:
                 pass
             except BaseException as e:            # an exception that leaves the thread's function is an observable
                 t.error = "%s: %s" % (type(e).__name__, e)
+                tb = e.__traceback__
+                while tb is not None and tb.tb_next is not None: tb = tb.tb_next
+                t.origin = "%s:%d" % (tb.tb_frame.f_code.co_filename, tb.tb_lineno) if tb is not None else None
             finally:
                 sys.settrace(None)
                 t.done = True
